@@ -69,6 +69,9 @@ def stream_cases(ctx, n_seq, per):
     outs = vlib.run_harness(binary01, pk)
     wires = [o["wire"] for o in outs if o.get("wire") and len(o["wire"]) < 6000]   # (a case on which the writer/reader panicked has no wire)
     raw = c01.raw_mutations(ctx, wires, per)
+    # the valid multi-packet wires themselves (sequences of frames on ONE connection: state carried from frame to frame, e.g. pooled buffers)
+    for w in wires[:40]:
+        raw.append({"mode": "raw", "wire": w, "cuts": rng.choice([[], [1] * 400, [5] * 100])})
     # every truncation point of a few valid streams
     for w in wires[:6]:
         b = bytes.fromhex(w)[:120]
